@@ -201,23 +201,29 @@ static void assert_true(TestReporter *reporter, const char *file, int line,
 
 static int read_reporter_results(TestReporter *reporter) {
     int result;
+    bool test_was_skipped = false;
     while ((result = receive_cgreen_message(reporter->ipc)) > 0) {
         if (result == pass) {
             reporter->passes++;
         } else if (result == skipped) {
-            reporter->skips++;
-            return FINISH_TEST_SKIPPED;
+            /* Keep reading: a test that called skip_test() still sends its remaining
+               results and its completion notification, they must not be left for the
+               next test */
+            if (!test_was_skipped) {
+                reporter->skips++;
+            }
+            test_was_skipped = true;
         } else if (result == fail) {
             reporter->failures++;
         } else if (result == exception) {
             reporter->exceptions++;
         } else if (result == completion) {
             /* TODO: this should always be the last message; if it's not, there's a bad race */
-            return FINISH_NOTIFICATION_RECEIVED;
+            return test_was_skipped ? FINISH_TEST_SKIPPED : FINISH_NOTIFICATION_RECEIVED;
         }
     }
 
-    return FINISH_NOTIFICATION_NOT_RECEIVED;
+    return test_was_skipped ? FINISH_TEST_SKIPPED : FINISH_NOTIFICATION_NOT_RECEIVED;
 }
 
 /* vim: set ts=4 sw=4 et cindent: */
